@@ -1,1 +1,290 @@
-/* placeholder */
+/* vf_sched.c -- token-passing scheduler (see vf_sched.h). Compiled WITHOUT verif_pre.h. */
+#define _GNU_SOURCE 1
+#include "vf_sched.h"
+#include <pthread.h>
+#include <stdio.h>
+#include <stdlib.h>
+#include <string.h>
+#include <unistd.h>
+#include <errno.h>
+#include <limits.h>
+#include <sys/syscall.h>
+#include <linux/futex.h>
+
+enum { T_NEW = 0, T_RUNNABLE = 1, T_BLOCKED = 2, T_FINISHED = 3 };
+enum { VF_LOAD = 0, VF_STORE = 1, VF_XCHG = 2, VF_RMW = 3, VF_CAS = 4, VF_CASW = 5, VF_LOCK = 6, VF_TRYLOCK = 7, VF_UNLOCK = 8, VF_YIELD = 9, VF_OP = 10 };
+
+typedef struct thr_s {
+  pthread_t th;
+  volatile int go;          /* futex word: 1 = you may run */
+  volatile int state;
+  volatile int yielded;
+  volatile int spins;       /* consecutive yields without any other thread taking a step */
+  void* volatile blocked_on;
+} thr_t;
+
+static struct {
+  volatile int exploring;
+  volatile int free_run;
+  int nthreads;
+  thr_t t[VF_MAX_THREADS];
+  volatile int ctl_go;
+  const vf_prog_t* prog;
+  const uint8_t* prefix; int prefix_len; int pos;
+  int spurious_budget;
+  vf_trace_t* tr;
+  vf_addr_tab_t* tab;
+  long horizon;
+  struct { void* addr; int owner; } mtx[32];
+  struct { uintptr_t lo, hi; } silent[8]; int nsilent;
+} S;
+
+static __thread int vf_tid = -1;
+
+int  vf_sched_tid(void) { return vf_tid; }
+int  vf_sched_exploring(void) { return S.exploring; }
+void vf_sched_free_run(int on) { S.free_run = on; }
+void vf_sched_silent(const void* lo, size_t len) { if (S.nsilent < 8) { S.silent[S.nsilent].lo = (uintptr_t)lo; S.silent[S.nsilent].hi = (uintptr_t)lo + len; S.nsilent++; } }
+
+static void fwait(volatile int* w) {
+  while (__atomic_load_n(w, __ATOMIC_ACQUIRE) == 0) syscall(SYS_futex, w, FUTEX_WAIT, 0, NULL, NULL, 0);
+  __atomic_store_n(w, 0, __ATOMIC_RELEASE);
+}
+static void fwake(volatile int* w) { __atomic_store_n(w, 1, __ATOMIC_RELEASE); syscall(SYS_futex, w, FUTEX_WAKE, 1, NULL, NULL, 0); }
+
+static void sched_fatal(int status, const char* msg) {
+  if (S.tr) { S.tr->status = status; S.tr->done = 1; }
+  fprintf(stderr, "vf_sched: %s\n", msg);
+  _exit(status == VF_ST_DIVERGED ? 96 : 90 + status);
+}
+
+/* ---------------- conflict-set table ----------------------------------------------------------- */
+static vf_addr_ent_t* tab_find(vf_addr_tab_t* tab, uintptr_t addr) {
+  size_t mask = ((size_t)1 << VF_TAB_BITS) - 1;
+  size_t i = (size_t)((addr >> 3) * 0x9E3779B97F4A7C15ULL >> (64 - VF_TAB_BITS));
+  for (size_t probes = 0; probes < 2048; probes++, i = (i + 1) & mask) {
+    uintptr_t cur = __atomic_load_n(&tab->e[i].addr, __ATOMIC_ACQUIRE);
+    if (cur == 0) {
+      uintptr_t exp = 0;
+      if (__atomic_compare_exchange_n(&tab->e[i].addr, &exp, addr, 0, __ATOMIC_ACQ_REL, __ATOMIC_ACQUIRE)) { __atomic_add_fetch(&tab->nentries, 1, __ATOMIC_RELAXED); cur = addr; }
+      else cur = exp;
+    }
+    if (cur == addr) return &tab->e[i];
+  }
+  return NULL;
+}
+/* records the access (discoveries only take effect at the next vf_tab_freeze) and answers whether the address is in
+   the conflict set of the current pass */
+static int tab_access(uintptr_t addr, int tid, int is_write) {
+  vf_addr_ent_t* e = tab_find(S.tab, addr);
+  if (e == NULL) return 1;   /* table full: treat as shared (sound, only slower) */
+  uint8_t bit = (uint8_t)(1u << tid);
+  if (!(e->tmask & bit)) __atomic_or_fetch(&e->tmask, bit, __ATOMIC_RELAXED);
+  if (is_write && !(e->wmask & bit)) __atomic_or_fetch(&e->wmask, bit, __ATOMIC_RELAXED);
+  return e->frozen;
+}
+long vf_tab_freeze(vf_addr_tab_t* tab) {
+  long added = 0;
+  for (size_t i = 0; i < ((size_t)1 << VF_TAB_BITS); i++) {
+    vf_addr_ent_t* e = &tab->e[i];
+    if (e->addr != 0 && !e->frozen && __builtin_popcount(e->tmask) >= 2 && e->wmask != 0) { e->frozen = 1; added++; }
+  }
+  tab->nshared += added;
+  return added;
+}
+void vf_tab_add_frozen(vf_addr_tab_t* tab, uintptr_t addr) {
+  vf_addr_ent_t* e = tab_find(tab, addr);
+  if (e && !e->frozen) { e->frozen = 1; e->tmask |= 3; e->wmask |= 1; tab->nshared++; }
+}
+
+/* ---------------- choices ---------------------------------------------------------------------- */
+static int next_choice(int n, int cur_enabled, int has_spur, int who, int kind) {
+  vf_trace_t* tr = S.tr;
+  int c = 0;
+  if (S.pos < S.prefix_len) {
+    c = S.prefix[S.pos];
+    if (c >= n) { char m[128]; snprintf(m, sizeof(m), "replay diverged at choice %d: option %d of %d", S.pos, c, n); sched_fatal(VF_ST_DIVERGED, m); }
+  }
+  S.pos++;
+  int k = tr->n;
+  if (k < VF_MAX_CHOICES) { tr->nopts[k] = (uint8_t)n; tr->chosen[k] = (uint8_t)c; tr->flags[k] = (uint8_t)((cur_enabled ? 1 : 0) | (has_spur ? 2 : 0)); tr->who[k] = (uint8_t)who; tr->kind[k] = (uint8_t)kind; tr->n = k + 1; }
+  else tr->overflow = 1;
+  if (n > tr->max_enabled) tr->max_enabled = n;
+  return c;
+}
+
+static void switch_to(int me, int next) {
+  fwake(&S.t[next].go);
+  if (me >= 0) fwait(&S.t[me].go);
+}
+
+/* runnable threads other than `me`, ascending; threads that yielded are skipped unless nobody else can run */
+static int others(int me, int* out) {
+  int n = 0;
+  for (int i = 0; i < S.nthreads; i++) if (i != me && (S.t[i].state == T_RUNNABLE || S.t[i].state == T_NEW) && !S.t[i].yielded) out[n++] = i;
+  if (n == 0) for (int i = 0; i < S.nthreads; i++) if (i != me && (S.t[i].state == T_RUNNABLE || S.t[i].state == T_NEW)) { S.t[i].yielded = 0; out[n++] = i; }
+  return n;
+}
+
+static int others_strict(int me, int* out) {
+  int n = 0;
+  for (int i = 0; i < S.nthreads; i++) if (i != me && (S.t[i].state == T_RUNNABLE || S.t[i].state == T_NEW) && !S.t[i].yielded) out[n++] = i;
+  return n;
+}
+
+/* a choice point of the running thread `me` (which stays enabled). returns 1 for "weak CAS fails spuriously" */
+static int choose(int me, int kind) {
+  int o[VF_MAX_THREADS]; int no = others_strict(me, o);   /* threads spinning in a yield loop are not offered: they wait for us */
+  int has_spur = (kind == VF_CASW && S.tr->spurious < S.spurious_budget);
+  int n = 1 + no + has_spur;
+  if (n == 1) return 0;
+  int c = next_choice(n, 1, has_spur, me, kind);
+  if (c == 0) return 0;
+  if (has_spur && c == n - 1) { S.tr->spurious++; return 1; }
+  S.tr->preemptions++;
+  switch_to(me, o[c - 1]);
+  return 0;
+}
+
+/* the running thread cannot continue (blocked, yielded or finished): pick another one; -1 if none */
+static int pick_other(int me, int kind) {
+  int o[VF_MAX_THREADS]; int no = others(me, o);
+  if (no == 0) return -1;
+  if (no == 1) return o[0];
+  return o[next_choice(no, 0, 0, me, kind)];
+}
+
+/* ---------------- instrumentation entry points -------------------------------------------------- */
+int vf_point(int kind, const volatile void* addr) {
+  int me = vf_tid;
+  if (me < 0 || !S.exploring) return 0;
+  uintptr_t a = (uintptr_t)addr;
+  for (int i = 0; i < S.nsilent; i++) if (a >= S.silent[i].lo && a < S.silent[i].hi) return 0;
+  vf_trace_t* tr = S.tr;
+  if (++tr->npoints > S.horizon) sched_fatal(VF_ST_LIVELOCK, "horizon exceeded (livelock?)");
+  { uint64_t h = tr->sig; h ^= (uint64_t)a + ((uint64_t)kind << 56) + ((uint64_t)me << 60); h *= 0x100000001B3ULL; h ^= h >> 29; tr->sig = h; }
+  for (int i = 0; i < S.nthreads; i++) if (i != me) { S.t[i].yielded = 0; S.t[i].spins = 0; }    /* somebody else took a step */
+  int shared = tab_access(a, me, kind != VF_LOAD);
+  if (!shared) return 0;
+  tr->nshared_points++;
+  return choose(me, kind);
+}
+
+/* mi_atomic_yield() is a CPU pause, not a hand-over: the spinning thread may well keep running while the thread it waits
+ * for is descheduled. So the first VF_FREE_SPINS consecutive yields of a thread are ordinary choice points (default:
+ * keep running; switching counts as a preemption). Only after that the thread is deprioritised until somebody else has taken a step,
+ * which keeps unbounded spin loops finite (fairness). _mi_page_try_use_delayed_free gives up after 4 yields, so 6 covers it. */
+#define VF_FREE_SPINS 6
+void vf_yield(void) {
+  int me = vf_tid;
+  if (me < 0 || !S.exploring) { if (S.free_run) sched_yield(); return; }
+  if (++S.tr->npoints > S.horizon) sched_fatal(VF_ST_LIVELOCK, "horizon exceeded in a spin loop (livelock?)");
+  int o[VF_MAX_THREADS]; int no = others_strict(me, o);
+  if (no == 0) return;                                   /* nobody else can make progress: keep spinning (bounded by the horizon) */
+  if (++S.t[me].spins <= VF_FREE_SPINS) {
+    int c = next_choice(1 + no, 1, 0, me, VF_YIELD);     /* option 0: keep spinning; others: switching away from a runnable thread is a preemption */
+    if (c == 0) return;
+    S.tr->preemptions++;
+    switch_to(me, o[c - 1]);
+    return;
+  }
+  S.t[me].yielded = 1;
+  int next = (no == 1 ? o[0] : o[next_choice(no, 0, 0, me, VF_YIELD)]);
+  switch_to(me, next);
+}
+
+static int mtx_slot(void* m) {
+  for (int i = 0; i < 32; i++) if (S.mtx[i].addr == m) return i;
+  for (int i = 0; i < 32; i++) if (S.mtx[i].addr == NULL) { S.mtx[i].addr = m; S.mtx[i].owner = -1; return i; }
+  sched_fatal(VF_ST_DIVERGED, "too many mutexes"); return 0;
+}
+int vf_mutex_lock(pthread_mutex_t* m) {
+  int me = vf_tid;
+  if (me < 0 || !S.exploring) return pthread_mutex_lock(m);
+  tab_access((uintptr_t)m, me, 1);
+  (void)choose(me, VF_LOCK);
+  int s = mtx_slot(m);
+  while (S.mtx[s].owner != -1) {
+    S.t[me].state = T_BLOCKED; S.t[me].blocked_on = m;
+    int next = pick_other(me, VF_LOCK);
+    if (next < 0) sched_fatal(VF_ST_DEADLOCK, "deadlock: every thread is blocked on a lock");
+    switch_to(me, next);
+  }
+  S.mtx[s].owner = me;
+  return pthread_mutex_lock(m);
+}
+int vf_mutex_trylock(pthread_mutex_t* m) {
+  int me = vf_tid;
+  if (me < 0 || !S.exploring) return pthread_mutex_trylock(m);
+  tab_access((uintptr_t)m, me, 1);
+  (void)choose(me, VF_TRYLOCK);
+  int s = mtx_slot(m);
+  if (S.mtx[s].owner != -1) return EBUSY;
+  S.mtx[s].owner = me;
+  return pthread_mutex_trylock(m);
+}
+int vf_mutex_unlock(pthread_mutex_t* m) {
+  int me = vf_tid;
+  if (me < 0 || !S.exploring) return pthread_mutex_unlock(m);
+  int s = mtx_slot(m);
+  S.mtx[s].owner = -1;
+  int r = pthread_mutex_unlock(m);
+  for (int i = 0; i < S.nthreads; i++) if (S.t[i].state == T_BLOCKED && S.t[i].blocked_on == m) { S.t[i].state = T_RUNNABLE; S.t[i].blocked_on = NULL; }
+  tab_access((uintptr_t)m, me, 1);
+  (void)choose(me, VF_UNLOCK);
+  return r;
+}
+
+/* ---------------- thread life cycle -------------------------------------------------------------- */
+static void thread_finish(int me) {
+  S.t[me].state = T_FINISHED;
+  if (S.free_run) return;
+  int next = pick_other(me, VF_OP);
+  if (next >= 0) { fwake(&S.t[next].go); return; }
+  for (int i = 0; i < S.nthreads; i++) if (S.t[i].state == T_BLOCKED) sched_fatal(VF_ST_DEADLOCK, "deadlock: remaining threads are blocked on a lock");
+  S.exploring = 0;
+  fwake(&S.ctl_go);
+}
+static void* thread_main(void* arg) {
+  int me = (int)(intptr_t)arg;
+  vf_tid = me;
+  fwait(&S.t[me].go);                       /* setup turn */
+  if (S.prog->setup) S.prog->setup(me);
+  fwake(&S.ctl_go);
+  fwait(&S.t[me].go);                       /* first time scheduled in the explored phase */
+  S.t[me].state = T_RUNNABLE;
+  S.prog->run(me);
+  thread_finish(me);
+  fwait(&S.t[me].go);                       /* teardown turn */
+  if (S.prog->teardown) S.prog->teardown(me);
+  fwake(&S.ctl_go);
+  fwait(&S.t[me].go);                       /* permission to return (thread-exit handlers run outside the explored phase) */
+  return NULL;
+}
+
+int vf_sched_execute(const vf_prog_t* prog, const uint8_t* prefix, int prefix_len, int spurious_budget, vf_trace_t* trace, vf_addr_tab_t* tab, long horizon) {
+  memset((void*)trace, 0, sizeof(*trace));
+  S.prog = prog; S.nthreads = prog->nthreads; S.prefix = prefix; S.prefix_len = prefix_len; S.pos = 0;
+  S.spurious_budget = spurious_budget; S.tr = trace; S.tab = tab; S.horizon = horizon;
+  memset(S.mtx, 0, sizeof(S.mtx));
+  for (int i = 0; i < S.nthreads; i++) { S.t[i].go = 0; S.t[i].state = T_NEW; S.t[i].yielded = 0; S.t[i].spins = 0; S.t[i].blocked_on = NULL; }
+  S.ctl_go = 0;
+  for (int i = 0; i < S.nthreads; i++) if (pthread_create(&S.t[i].th, NULL, thread_main, (void*)(intptr_t)i) != 0) { perror("pthread_create"); _exit(97); }
+  for (int i = 0; i < S.nthreads; i++) { fwake(&S.t[i].go); fwait(&S.ctl_go); }          /* serial setup */
+  if (S.free_run) {
+    for (int i = 0; i < S.nthreads; i++) fwake(&S.t[i].go);                                /* all at once, no token */
+    for (int i = 0; i < S.nthreads; i++) { /* each finishing thread wakes ctl once all are finished: emulate by polling */ }
+    for (;;) { int all = 1; for (int i = 0; i < S.nthreads; i++) if (S.t[i].state != T_FINISHED) all = 0; if (all) break; usleep(50); }
+  } else {
+    S.exploring = 1;
+    int first = 0;
+    if (S.nthreads > 1) first = next_choice(S.nthreads, 0, 0, 0xff, VF_OP);
+    fwake(&S.t[first].go);
+    fwait(&S.ctl_go);
+  }
+  S.exploring = 0;
+  for (int i = S.nthreads - 1; i >= 0; i--) { fwake(&S.t[i].go); fwait(&S.ctl_go); }     /* serial teardown, thread 0 (the owner in most harnesses) last */
+  for (int i = 0; i < S.nthreads; i++) { fwake(&S.t[i].go); pthread_join(S.t[i].th, NULL); } /* return one at a time */
+  trace->done = 1;
+  return trace->status;
+}
